@@ -17,7 +17,7 @@ import numpy as np
 
 import sim  # noqa: F401
 from sim import build
-from sim.core import attempt, exc_tag
+from sim.core import attempt, deep_tier, exc_tag
 from sim.oracle import (arrays_equal, carry_over, first_diff, hist_arrays, locate, missed_tuple, num_equal,
                         wellformed_problems)
 
@@ -114,6 +114,8 @@ def generate(rng, seed, part):
             ax["times_min"] = rng.randint(-5, 5) + ax["base_k"]
             ax["count"] = rng.randint(1, 4)
     n = rng.choice([1, 2, 3, 5, 8, 12, 20, 40])
+    if deep_tier(rng):
+        n = rng.choice([60, 120, 200])
     entries = []
     for _ in range(n):
         vals = [bounded(rng, ax["width"], ax["shift"] or 0.0, cap, ax.get("base_k", 0)) for ax in axes]
